@@ -66,7 +66,12 @@ class IkeSaController:
                 return None
 
         # generate the reply (if any)
-        reply = ike_sa.process_message(data)
+        try:
+            reply = ike_sa.process_message(data)
+        finally:
+            # an IKE_SA that could not process its very first message must not stay in the table
+            if ike_sa.state == IkeSa.State.INITIAL:
+                self.ike_sas.remove(ike_sa)
 
         # if rekeyed, add the new IkeSa
         if ike_sa.state in (IkeSa.State.REKEYED, IkeSa.State.DEL_AFTER_REKEY_IKE_SA_REQ_SENT):
